@@ -182,14 +182,17 @@ def _xv(gname, scheds, wd, cpath, gstats, t0, rand=None, trace=("Trace_Yata", "T
     tfile = os.path.join(wd, "trace.ndjson")
     tx = time.time()
     if rand is None:
-        with open(sfile, "w") as f:
-            for s in scheds:
-                f.write(json.dumps(s) + "\n")
-        xs = vlib.run_x(["yata-run", "--in", sfile, "--out", tfile, "--seed", str(vlib.seed()), "--repeat", str(repeat)])
+        # a behaviour that kills the process (memory fault in the library) becomes a `crash` event, not a tool error
+        xs = vlib.run_x_sched(scheds, sfile, tfile, ["--seed", str(vlib.seed()), "--repeat", str(repeat)])
     else:
-        xs = vlib.run_x(["yata-random", "--out-sched", sfile, "--out", tfile] + rand)
-        with open(sfile) as f:
-            scheds = [json.loads(ln) for ln in f if ln.strip()]
+        rand = list(rand)
+        nb = 10
+        if "--behaviours" in rand:
+            k = rand.index("--behaviours")
+            nb = int(rand[k + 1])
+            del rand[k:k + 2]
+        scheds, ncr = vlib.run_x_random(sfile, tfile, rand, nb)
+        xs = {"behaviours": len(scheds), "crashes": ncr}
     tv = time.time()
     merged = vlib.validate(trace[0], trace[1], tfile, os.path.join(wd, "v"), parallel=10)
     by_bid = {s["bid"]: s for s in scheds}
@@ -300,19 +303,16 @@ def run_all(tier, workdir):
         gstats.append(st)
         scheds += sc
     sfile, tfile = os.path.join(wd, "schedules.ndjson"), os.path.join(wd, "trace.ndjson")
-    with open(sfile, "w") as f:
-        for s in scheds:
-            f.write(json.dumps(s) + "\n")
     tx = time.time()
-    xs = vlib.run_x(["yata-run", "--in", sfile, "--out", tfile, "--seed", str(seed)])
+    xs = vlib.run_x_sched(scheds, sfile, tfile, ["--seed", str(seed)])
     nrand = 0
     for i in range(plan["random"]):
         rs, rt = os.path.join(wd, "rs%d.ndjson" % i), os.path.join(wd, "rt%d.ndjson" % i)
-        vlib.run_x(["yata-random", "--out-sched", rs, "--out", rt, "--seed", str(_h(seed, i, "yata") % (1 << 31)),
-                    "--behaviours", str(150 if tier == "quick" else 400), "--ops", str((12, 40, 30)[i % 3]), "--ext", "", "--gc-off", "0",
-                    "--rich", "1" if i % 3 == 2 else "0"])  # every third run: XML trees, formatting marks, embeds, sub-document references
-        with open(rs) as f:
-            rsch = [json.loads(ln) for ln in f if ln.strip()]
+        rsch, ncr = vlib.run_x_random(rs, rt, ["--seed", str(_h(seed, i, "yata") % (1 << 31)),
+                    "--ops", str((12, 40, 30)[i % 3]), "--ext", "", "--gc-off", "0",
+                    "--rich", "1" if i % 3 == 2 else "0"],  # every third run: XML trees, formatting marks, embeds, sub-document references
+                    150 if tier == "quick" else 400)
+        xs["crashes"] = xs.get("crashes", 0) + ncr
         nrand += len(rsch)
         scheds += rsch
         with open(tfile, "a") as out, open(rt) as f:
